@@ -49,6 +49,9 @@ EXTRA = [
     ((2, 8, 2, 1), {"short_last": True}),
     ((2, 20, 2, 1, None, [0.3, -0.01, -0.3]), {"short_last": True}),
     ((3, 8, 2, 1, None, [0.3, -0.01, -0.3]), {"short_last": True}),
+    ((2, 8, 1, 1), {"offgrid": True}),
+    ((2, 20, 1, 1, None, [0.3, -0.01, -0.3]), {"offgrid": True}),
+    ((3, 8, 1, 1, None, [0.3, -0.01, -0.3]), {"offgrid": True}),
     ((2, 8, 1, 1, None, [0.3, 1e-7, -1e-7, -0.3]), {}),
     ((2, 20, 1, 1, None, [0.3, -1e-7, -0.3]), {}),
 ]
@@ -65,7 +68,7 @@ def bounds(tier, seed):
         "answers_outside_a_search": OUT,
         "answers_inside_the_first_search": [0.3, 0.01, -0.01, -0.3],
         "exact_zero_answer": "thorough, 2 atoms, dt <= 2, bound 1",
-        "extra_rows": "last step half as long as dt (3 rows); ordinates of magnitude 1e-7 inside a search (2 rows)",
+        "extra_rows": "last step half as long as dt (3 rows); first step cut at 0.45 dt by an off-grid evaluation time (3 rows); ordinates of magnitude 1e-7 inside a search (2 rows)",
     }
 
 
@@ -106,8 +109,11 @@ def _make_impl(case):
     tt = [dt * k for k in range(steps + 1)]
     if case.get("short_last"):
         tt[-1] = tt[-2] + 0.5 * dt  # the last step is shorter than config.dt (duration not a multiple of dt)
+    if case.get("offgrid"):
+        tt = tt[:1] + [0.45 * dt] + tt[1:]  # an evaluation time off the dt grid cuts the first step in two
+        steps = len(tt) - 1
     ev = [t / tt[-1] for t in tt]
-    z = torch.zeros(steps, n, dtype=torch.complex128)
+    z = torch.zeros(len(tt) - 1, n, dtype=torch.complex128)
     L = torch.tensor([[1.0, 0.0], [0.0, -1.0]], dtype=torch.complex128) * np.sqrt(0.5)
     U = torch.zeros(n, n, dtype=torch.float64)
     sd = SequenceData(
@@ -185,7 +191,7 @@ def _path(case, chooser):
             impl.sweep_complete, impl.timestep_complete, impl.fill_results, impl.do_random_quantum_jump = sweep_complete, timestep_complete, fill_results, jump
             impl.init()
             sweep_calls = 1 if n <= 2 else 2 * (n - 1) - 1
-            budget = steps * sweep_calls + (case["bound"] + 1) * 40 * sweep_calls + 5
+            budget = (steps + 1) * sweep_calls + (case["bound"] + 1) * 40 * sweep_calls + 5
             while not impl.is_finished():
                 impl.progress()
                 trace["calls"] += 1
@@ -196,9 +202,12 @@ def _path(case, chooser):
         return f"AssertionError inside the stepping code: {str(e)[:200]}", trace
     except seams.NeedMore as e:
         return f"harness: unexpected random draw {e}", trace
+    except Exception as e:  # anything the stepping code raises is an outcome (e.g. Pulser refusing a second value for the same time)
+        return f"raised {type(e).__name__} inside the stepping code: {str(e)[:200]}", trace
     finally:
         impl_mod.evolve_pair, impl_mod.evolve_single = old_pair, old_single
     # ---- oracle on the trace -------------------------------------------------------------------
+    steps = len(tt) - 1
     want = [(i, tt[i + 1]) for i in range(steps)]
     if [(i, t) for i, t in trace["complete"]] != want:
         return f"time steps completed as {trace['complete']}, expected {want}", trace
